@@ -1,6 +1,145 @@
-// harness_algo.hpp — path-search verbs (filled in below)
+// harness_algo.hpp — path-search verbs.  Scan counts (C19) and the Dijkstra pop order (C12) are
+// observed through wrapper graph types: every algorithm is a template over the graph type and
+// calls getOutNeighbours exactly once per scan, so no source hook is needed.
 #pragma once
+#include "BaseGraph/algorithms/paths.hpp"
+#include "BaseGraph/directed_graph.hpp"
+#include "BaseGraph/undirected_graph.hpp"
 #include "harness_common.hpp"
-static inline bool isAlgoVerb(const std::string &) { return false; }
-template <class Gr> static bool runAlgo(const Gr &, const std::string &, const std::vector<std::string> &, std::string &, std::string &) { return false; }
-template <class Gr> static bool runDijkstra(const Gr &, const std::string &, const std::vector<std::string> &, std::string &, std::string &) { return false; }
+
+template <class L> struct CountDir : public BaseGraph::LabeledDirectedGraph<L> {
+    typedef BaseGraph::LabeledDirectedGraph<L> Base;
+    mutable std::vector<BaseGraph::VertexIndex> log;
+    CountDir(const Base &g) : Base(g) {}
+    const BaseGraph::Successors &getOutNeighbours(BaseGraph::VertexIndex v) const {
+        log.push_back(v);
+        return Base::getOutNeighbours(v);
+    }
+};
+template <class L> struct CountUnd : public BaseGraph::LabeledUndirectedGraph<L> {
+    typedef BaseGraph::LabeledUndirectedGraph<L> Base;
+    mutable std::vector<BaseGraph::VertexIndex> log;
+    CountUnd(const Base &g) : Base(g) {}
+    const BaseGraph::Successors &getOutNeighbours(BaseGraph::VertexIndex v) const {
+        log.push_back(v);
+        return Base::getOutNeighbours(v);
+    }
+};
+template <class L> static CountDir<L> wrapCount(const BaseGraph::LabeledDirectedGraph<L> &g) { return CountDir<L>(g); }
+template <class L> static CountUnd<L> wrapCount(const BaseGraph::LabeledUndirectedGraph<L> &g) { return CountUnd<L>(g); }
+
+template <class WG> struct CountW {
+    const WG &g;
+    mutable std::vector<BaseGraph::VertexIndex> log;
+    CountW(const WG &g) : g(g) {}
+    size_t getSize() const { return g.getSize(); }
+    const BaseGraph::Successors &getOutNeighbours(BaseGraph::VertexIndex v) const {
+        log.push_back(v);
+        return g.getOutNeighbours(v);
+    }
+    BaseGraph::EdgeWeight getEdgeWeight(BaseGraph::VertexIndex a, BaseGraph::VertexIndex b) const { return g.getEdgeWeight(a, b); }
+};
+
+static inline bool isAlgoVerb(const std::string &v) {
+    return v == "bfs" || v == "allpred" || v == "geodesic" || v == "allgeodesics" || v == "geodesicsfrom" ||
+           v == "allgeodesicsfrom" || v == "dijkstra";
+}
+template <class Gr> static std::string showVE(const Gr &g) {
+    size_t e = 0;
+    for (size_t i = 0; i < g.getSize(); ++i) e += g.getOutNeighbours(i).size();
+    return " | VE: " + std::to_string(g.getSize()) + " " + std::to_string(e);
+}
+static inline std::string showPath(const std::list<BaseGraph::VertexIndex> &p) {
+    if (p.empty()) return "-";
+    std::string s; bool first = true;
+    for (auto v : p) { if (!first) s += ","; first = false; s += std::to_string(v); }
+    return s;
+}
+static inline std::string showPaths(const std::list<std::list<BaseGraph::VertexIndex>> &ps) {
+    if (ps.empty()) return "-";
+    std::string s; bool first = true;
+    for (auto &p : ps) { if (!first) s += " "; first = false; s += showPath(p); }
+    return s;
+}
+
+template <class Gr> static bool runAlgo(const Gr &g0, const std::string &verb, const std::vector<std::string> &a, std::string &out, std::string &echo) {
+    using namespace BaseGraph;
+    VertexIndex s, t;
+    if (verb == "bfs" && a.size() == 1 && pv(a[0], s)) {
+        auto g = wrapCount(g0);
+        std::string body;
+        std::string r = guard([&] {
+            auto res = algorithms::findVertexPredecessors(g, s);
+            body = "P dist: " + joinSeq(res.first) + " | pred: " + joinSeq(res.second) + " | scans: " + joinSeq(g.log) + showVE(g0) + "\n";
+            return std::string("ok");
+        });
+        out = "R " + r + "\n" + (r == "ok" ? body : "");
+        return true;
+    }
+    if (verb == "allpred" && a.size() == 1 && pv(a[0], s)) {
+        auto g = wrapCount(g0);
+        std::string body;
+        std::string r = guard([&] {
+            auto res = algorithms::findAllVertexPredecessors(g, s);
+            std::string ps; bool first = true;
+            for (auto &l : res.second) { if (!first) ps += " "; first = false; ps += showPath(l); }
+            body = "P dist: " + joinSeq(res.first) + " | preds: " + ps + " | scans: " + joinSeq(g.log) + showVE(g0) + "\n";
+            return std::string("ok");
+        });
+        out = "R " + r + "\n" + (r == "ok" ? body : "");
+        return true;
+    }
+    if (verb == "geodesic" && a.size() == 2 && pv(a[0], s) && pv(a[1], t)) {
+        out = "R " + guard([&] { return "ok path: " + showPath(algorithms::findGeodesics(g0, s, t)); }) + "\n";
+        return true;
+    }
+    if (verb == "allgeodesics" && a.size() == 2 && pv(a[0], s) && pv(a[1], t)) {
+        out = "R " + guard([&] { return "ok paths: " + showPaths(algorithms::findAllGeodesics(g0, s, t)); }) + "\n";
+        return true;
+    }
+    if (verb == "geodesicsfrom" && a.size() == 1 && pv(a[0], s)) {
+        out = "R " + guard([&] {
+            auto res = algorithms::findGeodesicsFromVertex(g0, s);
+            std::string r = "ok from: "; bool first = true;
+            for (auto &p : res) { if (!first) r += " "; first = false; r += showPath(p); }
+            return r;
+        }) + "\n";
+        return true;
+    }
+    if (verb == "allgeodesicsfrom" && a.size() == 1 && pv(a[0], s)) {
+        out = "R " + guard([&] {
+            auto res = algorithms::findAllGeodesicsFromVertex(g0, s);
+            std::string r = "ok allfrom: "; bool first = true;
+            for (auto &ps : res) { if (!first) r += " | "; first = false; r += showPaths(ps); }
+            return r;
+        }) + "\n";
+        return true;
+    }
+    return false;
+}
+
+template <class Gr> static bool runDijkstra(const Gr &g0, const std::string &verb, const std::vector<std::string> &a, std::string &out, std::string &echo) {
+    using namespace BaseGraph;
+    VertexIndex s;
+    if (verb != "dijkstra" || a.empty() || !pv(a[0], s)) return false;
+    CountW<Gr> g(g0);
+    std::string body;
+    std::string r = guard([&] {
+        auto res = algorithms::findGeodesicsDijkstra(g, s);
+        std::string d; bool first = true;
+        for (double x : res.first) { if (!first) d += " "; first = false; d += showQuarter(x); }
+        body = "P dist: " + d + " | pred: " + joinSeq(res.second) + " | scans: " + std::to_string(g.log.size()) + showVE(g0) + "\n";
+        return std::string("ok");
+    });
+    // echo: the line the model replays, with the observed pop order as oracle
+    {
+        std::string e = "dijkstra";
+        size_t sp = echo.find(' ');
+        std::string slot = echo.substr(sp + 1, echo.find(' ', sp + 1) - sp - 1);
+        e += " " + slot + " " + a[0];
+        if (r == "ok") { e += " pops"; for (auto v : g.log) e += " " + std::to_string(v); }
+        echo = e;
+    }
+    out = "R " + r + "\n" + (r == "ok" ? body : "");
+    return true;
+}
